@@ -19,7 +19,7 @@ TEXT = {
  'C09': dict(
    engine='kani+verus',
    technique='Kani loop-free harness over all 2^24 versions on the real assert_max_version (complete), plus Verus contracts on both writers (guard called first, Err propagated)',
-   level='Complete proof by Kani/CBMC on the real compiled crate: assert_max_version(v) is Ok exactly when (major, minor, patch) <= (3, 16, 0) lexicographically, for all 2^24 versions.',
+   level='Complete proof by Kani/CBMC on the real compiled crate: assert_max_version(v) is Ok exactly when (major, minor, patch) <= (3, 16, 0) lexicographically, for all 2^24 versions; Verus on the extracted slippi::ser::write: the guard runs first and its Err is returned (nothing is written on that path).',
    note='Trusted: Kani 0.68/CBMC; alloc::fmt::format stubbed (error text irrelevant). The derived Ord on Version is part of what is checked (real code).',
    design_ref='DESIGN.md §5 C09'),
  'C20': dict(
@@ -38,4 +38,14 @@ TEXT = {
    level='Deductive proof (Verus/Z3) on the extracted HashingReader: for ANY inner reader and ANY sequence of short reads, while hashing is on the hasher has been fed exactly the bytes delivered (invariant preserved by read); new() hashes iff requested; seek() switches hashing off; into_digest() is None iff not hashing and otherwise "xxh3:" + 16 lowercase hex digits of XXH3-64(consumed bytes).',
    note='Assumed: std::io::Read::read_exact/by_ref are what std documents (built from `read`); Xxh3::{new,update,digest} accumulate bytes and XXH3-64 itself is trusted/uninterpreted; `format!("xxh3:{:016x}", d)` has std\'s documented meaning (macro shadowed per literal: any other format string fails the clause). The de::read part (seek only when not hashing; hash stored in the game) and the .slpp passthrough are covered where the read/peppi units claim them.',
    design_ref='DESIGN.md §5 C11'),
+ 'C01': dict(
+   technique='Verus contracts on the extracted .slp writer (file layout, payload table, canonical frame order, gecko blocks, raw start/end) and on the generated codecs (read_push / write) plus a machine-checked encode-after-decode inverse lemma per struct',
+   level='Deductive proof (Verus/Z3), unbounded in version, ports, frames, items and field bit patterns, of the mechanisms the property names: (1) every generated read_push decodes the spec-table offsets and every generated write emits the same fields in table order; a generated, machine-checked lemma per struct shows emit(decode(bytes)) == bytes for all versions and bit patterns (NaN payloads are ordinary bit patterns); (2) From<mutable> is field-wise; (3) ser::write emits signature, raw length, payload table, raw Game Start, gecko blocks, frames, Game End (0/1/2 times), metadata marker, closing brace exactly as file_spec; (4) Frame::write emits, per frame row, start?, pre* (leader then follower, only present characters), item* (that frame\'s offset slice), post*, end? (loop invariants over frames, ports, items).',
+   note='NOT mechanised: the file-level concatenation argument that de::read followed by ser::write is the identity on a canonical file (reader side is covered by C04/C08/C12 contracts; the glue is a written argument in DESIGN.md §5 C01). Assumed: shim contracts for byteorder/Write/arrow2 arrays; UBJSON metadata bytes are an uninterpreted function here (C16 covers the metadata codec); wf premises: raw blocks <= 65535 bytes, < 2^32 frames/items, gecko blob length = 512 * ceil(actual_size/512).',
+   design_ref='DESIGN.md §5 C01'),
+ 'C17': dict(
+   technique='Verus contracts on the extracted PayloadSizes::raw_size / frame_counts / gecko_codes_size / payload_sizes against an arithmetic spec of the raw element length; Frame::write and ser::write against the byte-level file spec',
+   level='Deductive proof (Verus/Z3) for every game value satisfying the stated well-formedness (not only canonical ones): the declared raw length equals 2 + 3*|table| + start + end (only when present; twice with the duplicate quirk) + per-event-kind counts times (1 + payload size) + 517 per gecko block, where the counts are proved to be the number of frame rows, the number of present characters summed over ports (validity bitmaps) and the number of item rows; u32 overflow is excluded from the stated bound raw length <= u32::MAX. The written bytes depend only on the column view (file_spec), so non-canonical input order cannot show in the output.',
+   note='The equality "sum over frames of emitted event lengths == counts formula" (a double-sum rearrangement over spec functions, independent of the code) is argued in DESIGN.md, not mechanised. Re-read equality (second read yields the same game) rests on the C01/C04 contracts plus that written argument. Defect F1 (end-less game: declared length 2 bytes too long) was found by this check and repaired (fix: commit 54396e1).',
+   design_ref='DESIGN.md §5 C17'),
 }
